@@ -858,7 +858,7 @@ func (g *RNG) frameSeq(v int, codec uint8, n int, small bool) (stream []byte, wa
 
 func runC03(r *Run) {
 	g := r.rng
-	r.st.Rule = "back-to-back frame sequences (both versions, all types, verify/gzip/metadata mixes, body >= 256 so the three length bytes differ) x partitions (random cuts; every single cut position; 1-byte chunks; fixed chunk sizes) x ring geometries (capacity 1..64, 509, 4096; every start offset so each multi-byte field meets the wrap) through the real Unpack on the real ring buffer; an unrelated Pack on another context between every two chunks (shared header pools); packets and left-over counts compared with the model after every chunk and with per-frame one-shot decoding (direct oracle); delivered packets are re-rendered after the whole stream: they must not have changed (no aliasing of the receive buffer). distinct = distinct request lines"
+	r.st.Rule = "back-to-back frame sequences (both versions, all types, verify/gzip/metadata mixes, body >= 256 so the three length bytes differ) x partitions (random cuts; every single cut position; 1-byte chunks; fixed chunk sizes) x ring geometries (capacity 1..64, 509, 4096; every start offset so each multi-byte field meets the wrap) through the real Unpack on the real ring buffer; an unrelated Pack on another context between every two chunks (shared header pools); packets and left-over counts compared with the model after every chunk and with per-frame one-shot decoding (direct oracle); delivered packets are re-rendered after the whole stream: they must not have changed (no aliasing of the receive buffer). ; plus the concrete ring model (Ring.v) against the ring buffer itself: random geometries reached through the public API (incl. growth), private state read by reflection, Length/Peek/Retrieve sequences compared item by item with the final r/w/isEmpty/content. distinct = distinct request lines"
 	nseq := 60
 	if r.thorough() {
 		nseq = 1200
@@ -892,6 +892,7 @@ func runC03(r *Run) {
 		}
 	}
 	r.wrapSweep(map[bool]int{true: 1, false: 7}[r.thorough()], true)
+	r.ringCases(map[bool]int{true: 20000, false: 1500}[r.thorough()])
 }
 
 func sortInts(a []int) {
